@@ -676,4 +676,29 @@ theorem removed_state_stale_location :
     runSched_reachS exRmStale 3 [] [] 100 (by decide) _ (by decide +kernel) _ ReachS.init,
     by decide +kernel⟩
 
+set_option maxRecDepth 100000 in
+/-- Why `MaxTriesOne` is needed in `start_has_states_removal_symmetric_partial` (which has no hypothesis on the scopes).
+`exRmRetry`: the symmetric graph with the two workers in DIFFERENT swarms, `d` with `max_tries = 3` and
+`rerun_status = fail`; every other hypothesis holds.  `c1.net1` runs `a` (PASS) and `b`; `c2.net2` skips `a` and starts
+`d` (state in `c1.net1`'s pool).  `c1.net1` finishes `b`, comes to its copy of `d`: the peer's placeholder `UNKNOWN` is
+not in the rerun set, so the run decision is negative although `d` has not been decided yet; it drops `d`, its copy of
+`a` is cleanup-ready, the clean decision waits for its own swarm only (the known cross-swarm finding of C05) and the state
+is removed.  Then `d` FAILS on `c2.net2`: now every status is in the rerun set, two tries are left, and `c2.net2` starts `d`
+again (`3a1r1`), told `c1.net1`'s pool — where the state no longer is. -/
+theorem retries_cross_swarm_stale_restart :
+    Clean.WellFormed exRmRetry 4 ∧ SemHypR exRmRetry ∧ SymCopies exRmRetry ∧ ¬ MaxTriesOne exRmRetry ∧
+    ¬ Clean.OneScope exRmRetry ∧
+    ReachS exRmRetry 4 [] [] exRmRetry_4 ∧
+    Event.start "c2.net2" "3" "3a1r1" [("vm1", ":/pool/shared c1.net1:/pool/swarm")] 1 ∈ (resume exRmRetry exRmRetry_4 1 exFail 100).2 ∧
+    ("vm1", "a") ∉ storeGet (resume exRmRetry exRmRetry_4 1 exFail 100).1.store "c2.net2" ∧
+    ("vm1", "a") ∉ storeGet (resume exRmRetry exRmRetry_4 1 exFail 100).1.store "shared" ∧
+    ("vm1", "a") ∉ storeGet (resume exRmRetry exRmRetry_4 1 exFail 100).1.store "c1.net1" ∧
+    (sharedResults exRmRetry (resume exRmRetry exRmRetry_4 1 exFail 100).1 1).all (fun r => r.status == "PASS") = true :=
+  ⟨by decide +kernel,
+    ⟨by decide +kernel, by decide +kernel, by decide +kernel, by decide +kernel, by decide +kernel, by decide +kernel,
+      by decide +kernel⟩,
+    by decide +kernel, by decide +kernel, by decide +kernel,
+    runSched_reachS exRmRetry 4 [] [] 100 (by decide) _ (by decide +kernel) _ ReachS.init,
+    by decide +kernel⟩
+
 end I2N.Props.C01
